@@ -17,6 +17,6 @@ for p in sorted((root / "hdc").rglob("*.py")):
     dotted = rel[:-3].replace("/", ".")
     if dotted.endswith(".__init__"):
         dotted = dotted[: -len(".__init__")]
-    out[dotted] = canon.snapshot(ast.parse(p.read_text()))
+    out[dotted] = canon.snapshot(ast.parse(p.read_text()), dotted, p.name == "__init__.py")
 (V / "ref" / "names.json").write_text(json.dumps(out, indent=0, sort_keys=True))
 print(sum(len(v) for v in out.values()), "functions")
